@@ -4,5 +4,5 @@ EXTENDS Cli, Json
 \* one line per finished behaviour for the replay harness (harness/src/cli.rs runs the real binary)
 Emit ==
   Done => PrintT(<<"REPLAY", ToJson([files |-> files, query |-> query, defs |-> defs, format |-> format, stdin |-> usestdin,
-                                      stats |-> stats, cmdsrc |-> cmdsrc, col |-> ColOf(query), out |-> out, exit |-> exit])>>)
+                                      stats |-> stats, cmdsrc |-> cmdsrc, follow |-> follow, col |-> ColOf(query), out |-> out, exit |-> exit])>>)
 =============================================================================
